@@ -14,6 +14,7 @@ From WG Require Import Visits.Dfs.
 From WG Require Import Algo.HyperBall.
 From WG Require Import Split.Model.
 From WG Require Import Split.ArcList.
+From WG Require Import Algo.Scc.
 
 Extraction Language OCaml.
 
@@ -124,4 +125,20 @@ Extraction "model.ml"
   al_skip
   al_collect
   graph_of_arcs
+  reach_table
+  check_scc_tab
+  check_scc
+  tarjan
+  kosaraju
+  transpose
+  top_sort
+  symm_seq
+  symm_par
+  finish_orderedb
+  compute_sizes
+  sort_by_size
+  sorts_by_sizeb
+  non_increasing
+  same_partitionb
+  tarjan_early
 .
